@@ -169,6 +169,24 @@ def attach_loops(body, loops, report):
             continue
         clause = loops[ordinal].rstrip()
         head = out[s:ob]
+        first = clause.lstrip().split('\n', 1)[0].strip()
+        if kw == 'for' and first in ('as-while', 'as-while-ref'):
+            # R5c: the standard desugaring of `for PAT in EXPR` over an indexable collection into an index loop
+            # (needed where the body uses `continue`, which Verus does not accept in `for`): the index is bumped
+            # at the top of the body, so `continue` cannot skip it.
+            mm = re.match(r'^for\s+(.*?)\s+in\s+(.*?)\s*$', head, flags=re.S)
+            if not mm:
+                raise AnchorError('cannot desugar for-loop head: ' + head)
+            pat, expr = mm.group(1), mm.group(2)
+            idx = f'__i{ordinal}'
+            rest = clause.lstrip().split('\n', 1)[1] if '\n' in clause.lstrip() else ''
+            amp = '&' if first == 'as-while-ref' else ''
+            expr_c = expr.lstrip('&').strip()
+            new_head = (f'let mut {idx}: usize = 0;\nwhile {idx} < {expr_c}.len()\n{rest}\n    decreases {expr_c}.len() - {idx}\n')
+            body_open = f'{{\n let {pat} = {amp}{expr_c}[{idx}]; {idx} += 1;'
+            out = out[:s] + new_head + body_open + out[ob + 1:]
+            report['rewrites']['R5c for-loop desugared to an index loop'] = report['rewrites'].get('R5c for-loop desugared to an index loop', 0) + 1
+            continue
         if kw == 'for':
             # `for PAT in EXPR` -> `for PAT in it: EXPR`
             head2, n = re.subn(r'^(for\s+.*?\s+in\s+)', r'\1it: ', head, count=1, flags=re.S)
